@@ -4,8 +4,8 @@
 set -e
 V=$(cd "$(dirname "$0")" && pwd)
 export CARGO_NET_OFFLINE=true
+python3 "$V/tools/gen_coqproject.py"
 cd "$V/coq"
-coq_makefile -f _CoqProject -o Makefile >/dev/null
 timeout 7200 make -j16 2>&1 | grep -v "WARNING conda" | tail -5
 "$V/ocaml/build.sh"
 [ -f "$V/harness/Cargo.lock" ] || cp /repo/Cargo.lock "$V/harness/Cargo.lock"
